@@ -138,3 +138,150 @@ def load_desc(desc):
         return "err", ("Timeout", {}, "")
     except Exception as e:  # noqa: BLE001
         return "err", exc_info(e)
+
+
+# ---------------------------------------------------------------- icase / bag / regq
+def run_icase(a, b):
+    su = M("str_utils")
+    A, B = su.ICaseString(a), su.ICaseString(b)
+    return [A == B, A < B, hash(A) == hash(B), (b in A), str(A), a.lower(), a.upper()]
+
+
+def mk_bag(rec):
+    cu = M("container_utils")
+    sd = M("sim_services.sim_defs")
+    return cu.BagValDict({k: [sd.InstrState(i, sd.StallState(l)) for i, l in es] for k, es in rec})
+
+
+def run_bag(a, b):
+    A, B = mk_bag(a), mk_bag(b)
+    return [A == B, len(A), repr(A)]
+
+
+def enc_pyqueue(groups_front_first):
+    ra = M("reg_access")
+    return [[Sym("R" if g.access_type == ra.AccessType.READ else "W"), sorted(int(o) for o in g.reqs)]
+            for g in groups_front_first]
+
+
+def run_regq(reqs, ops):
+    ra = M("reg_access")
+    ty = {"R": ra.AccessType.READ, "W": ra.AccessType.WRITE}
+    b = ra.RegAccQBuilder()
+    for t, o in reqs:
+        b.append(ty[t], o)
+    q0 = enc_pyqueue(list(b._queue))                      # builder keeps registration order
+    q = b.create()
+    outs = []
+    dead = False
+    for op in ops:
+        if dead:
+            outs.append(Sym("skipped"))
+            continue
+        if op[0] == "can":
+            try:
+                outs.append(bool(q.can_access(ty[op[1]], op[2])))
+            except IndexError:
+                outs.append(Sym("IndexError"))
+        else:
+            try:
+                q.dequeue(op[1])
+                outs.append(Sym("ok"))
+            except (KeyError, IndexError) as e:
+                outs.append(Sym(type(e).__name__))
+                dead = True
+    return [q0, outs, enc_pyqueue(list(reversed(q._queue)))]
+
+
+# ---------------------------------------------------------------- parse / isa
+def run_parse(lines):
+    pu = M("program_utils")
+    try:
+        prog = with_timeout(pu.read_program, list(lines))
+        return [Sym("ok"), [[list(p.sources), p.destination, p.name, int(p.line)] for p in prog]]
+    except pu.CodeError as e:
+        return [Sym("err"), [Sym("CodeError"), int(e.line), e.instr, str(e)]]
+    except CaseTimeout:
+        return [Sym("err"), [Sym("Timeout")]]
+    except Exception as e:  # noqa: BLE001
+        return [Sym("err"), [Sym(type(e).__name__), str(e)]]
+
+
+def run_isa(spec, caps, prog):
+    pu = M("processor_utils")
+    su = M("str_utils")
+    pd = M("program_defs")
+    pgu = M("program_utils")
+    try:
+        isa = pu.load_isa([tuple(x) for x in spec], [su.ICaseString(c) for c in caps])
+        r1 = [Sym("ok"), [[k, v] for k, v in isa.items()]]
+    except Exception as e:  # noqa: BLE001
+        cls, f, msg = exc_info(e)
+        fields = [f[k] for k in ("old_element", "new_element", "element") if k in f]
+        return [[Sym("err"), [Sym(cls)] + fields, msg], Sym("none")]
+    try:
+        hw = pgu.compile_program([pd.ProgInstruction(list(s), d, n, l) for s, d, n, l in prog], isa)
+        r2 = [Sym("ok"), enc_hwprog(hw)]
+    except Exception as e:  # noqa: BLE001
+        cls, f, msg = exc_info(e)
+        r2 = [Sym("err"), [Sym(cls), f.get("element", "")], msg]
+    return [r1, r2]
+
+
+def run_abilities(proc):
+    pu = M("processor_utils")
+    return sorted(str(c) for c in pu.get_abilities(proc))
+
+
+# ---------------------------------------------------------------- loader
+def enc_load(desc):
+    """implementation result of load_proc_desc as ['ok', proc] / ['err', [cls, fields...], msg]; plus
+    whether the argument was mutated"""
+    before = copy.deepcopy(desc)
+    tag, r = load_desc(desc)
+    mutated = desc != before
+    if tag == "ok":
+        return [Sym("ok"), enc_proc(r)], r, mutated
+    cls, f, msg = r
+    order = {"DupElemError": ("old_element", "new_element"), "BadWidthError": ("unit", "width"),
+             "BadEdgeError": ("edge",), "UndefElemError": ("element",), "DeadInputError": ("port",),
+             "PathLockError": ("start", "lock_type", "capability"), "BlockedCapError": ("capability", "port")}
+    fields = [f[k] for k in order.get(cls, ()) if k in f]
+    fields = [list(x) if isinstance(x, (list, tuple)) else x for x in fields]
+    return [Sym("err"), [Sym(cls)] + fields, msg], None, mutated
+
+
+def desc_to_sx(desc):
+    us = [[u["name"], int(u["width"]), list(u["capabilities"]), bool(u.get("readLock", False)),
+           bool(u.get("writeLock", False)), list(u.get("memoryAccess", []))] for u in desc["units"]]
+    return [us, [list(e) for e in desc["dataPath"]]]
+
+
+# ---------------------------------------------------------------- whole pipeline through the library
+def run_library(desc, isa_pairs, lines):
+    """read_processor-equivalent composition on in-memory data: returns dict with stage results"""
+    pu = M("processor_utils")
+    pgu = M("program_utils")
+    ss = M("sim_services")
+    out = {}
+    try:
+        proc = pu.load_proc_desc(copy.deepcopy(desc))
+        isa = pu.load_isa([tuple(x) for x in isa_pairs], pu.get_abilities(proc))
+        prog = pgu.read_program(list(lines))
+        hw = pgu.compile_program(prog, isa)
+    except Exception as e:  # noqa: BLE001
+        cls, f, msg = exc_info(e)
+        return {"err": [cls, jsonish(f), msg]}
+    out["proc"] = enc_proc(proc)
+    out["isa"] = [[k, v] for k, v in isa.items()]
+    out["hw"] = enc_hwprog(hw)
+    out["sim"] = run_sim_obj(proc, hw)
+    return out
+
+
+def jsonish(x):
+    if isinstance(x, dict):
+        return {k: jsonish(v) for k, v in x.items()}
+    if isinstance(x, (list, tuple)):
+        return [jsonish(v) for v in x]
+    return x
